@@ -217,6 +217,8 @@ impl Context {
             // set the tag on task to avoid the repetitive hook execution
             if is_hook_event {
                 task.set_data_with(|data| data.set(consts::IS_EVENT_PROCESSED, true));
+                #[cfg(feature = "verif")]
+                crate::verif::on_hook_task(&task);
             }
             self.runtime.push(&task);
         }
